@@ -60,6 +60,7 @@ func (c *netFD) Close() (err error) {
 		return nil
 	}
 	if !c.detaching && c.fd > 2 {
+		verifFD(-vfdConn, c, c.fd)
 		err = syscall.Close(c.fd)
 		if err != nil {
 			logger.Printf("NETPOLL: netFD[%d] close error: %s", c.fd, err.Error())
